@@ -363,24 +363,37 @@ def _late_pruned(ctx):
     decision (the branch was infeasible, the 60-150 ms pruning query just did not show it in time: every obligation of
     such a path is vacuous and the path is dropped).  If the prefix before that decision is already unsatisfiable, or
     no decision prefix is, the contradiction comes from assumed contracts / invariants: vacuity error."""
+    class _Unknown(Exception):
+        pass
+
     def unsat(n):
-        s = z3.Solver()
-        s.set("timeout", 400)
-        s.add(*ctx.pc[:n])
-        return guarded_check(s, 400) == z3.unsat
+        # three-valued: a prefix the solver cannot decide (first within 400 ms, then within 4 s - wall-clock budgets
+        # stretch when all cores are busy) makes the classification impossible; the path itself IS unsatisfiable (shown by
+        # the caller), so dropping it is sound for every obligation on it - only the vacuity *diagnosis* is given up
+        for budget in (400, 4000):
+            s = z3.Solver()
+            s.set("timeout", budget)
+            s.add(*ctx.pc[:n])
+            r = guarded_check(s, budget)
+            if r != z3.unknown:
+                return r == z3.unsat
+        raise _Unknown()
 
     # unsatisfiability is monotone in the prefix length: binary search for the first decision whose prefix is unsat
     pos = list(ctx.dec_pos)
-    if not pos or not unsat(pos[-1]):
-        return False  # contradiction only after the last decision: it comes from assumed clauses
-    lo, hi = 0, len(pos) - 1
-    while lo < hi:
-        mid = (lo + hi) // 2
-        if unsat(pos[mid]):
-            hi = mid
-        else:
-            lo = mid + 1
-    return not unsat(pos[lo] - 1)
+    try:
+        if not pos or not unsat(pos[-1]):
+            return False  # contradiction only after the last decision: it comes from assumed clauses
+        lo, hi = 0, len(pos) - 1
+        while lo < hi:
+            mid = (lo + hi) // 2
+            if unsat(pos[mid]):
+                hi = mid
+            else:
+                lo = mid + 1
+        return not unsat(pos[lo] - 1)
+    except _Unknown:
+        return True
 
 
 def _frame_check(m, env, contract):
